@@ -44,6 +44,7 @@ DEFAULT_PROFILE = {
     "pack": 2,            # out of 10 factories are pack/unpack lines
     "split_fanin": 2,     # out of 10 pack lines with a splitter: a second pallet source feeds the splitter directly
     "two_stage": 2,       # out of 10 pack lines: two combiners in series (the second receives loaded pallets)
+    "pre_machine": 2,     # out of 10 ingredient sources of a pack line are followed by a machine
     "max_layers": 2,
     "setup": True,
     "finite": 5,          # out of 10 factories have finite input
@@ -212,6 +213,12 @@ def decode_flow(g, p):
             pr = (g.pick(a)["id"], g.pick(b)["id"])
             if pairs.count(pr) < 1 and len(pairs) < 7:
                 pairs.append(pr)
+        if p.get("parallel") and g.n(10) < p["parallel"] and len(pairs) < 7:
+            # parallel edges between the same two nodes (a sender choosing among several edges that free together)
+            pr = g.pick(pairs)
+            for _ in range(1 + g.n(2)):
+                if len(pairs) < 8:
+                    pairs.append(pr)
         for (u, v) in pairs:
             kinds = None
             if p["conveyors"]:
@@ -275,6 +282,16 @@ def decode_pack(g, p):
     edges.append(edge_spec(g, p, "E%d" % ne, "P0", "C0", ["Buffer"]))
     ne += 1
     for s in ings:
+        if p.get("pre_machine") and g.n(10) < p["pre_machine"]:
+            # a machine between the ingredient source and the combiner: the combiner (which may hold several retrievals on one
+            # in-edge) becomes the consumer of a machine's out-edge
+            mid = "A" + s["id"][1:]
+            nodes.append(machine_spec(g, p, mid))
+            edges.append(edge_spec(g, p, "E%d" % ne, s["id"], mid, ["Buffer"]))
+            ne += 1
+            edges.append(edge_spec(g, p, "E%d" % ne, mid, "C0", in_kinds))
+            ne += 1
+            continue
         edges.append(edge_spec(g, p, "E%d" % ne, s["id"], "C0", in_kinds))
         ne += 1
     last = "C0"
